@@ -85,8 +85,87 @@ fn comment_norm(t: &scan::Token, src: &str) -> (scan::Kind, String) {
 }
 
 // `end` goes when the alternative abstraction syntax `comatch params => body end` is printed as `fn params => body`
-const REMOVABLE: &[&str] = &["(", ")", ",", "=>", ".", "=", "fn", "forall", "pi", "sigma", "exists", "end"];
-const ADDABLE: &[&str] = &["(", ")"];
+/// Tokens the formatter may legitimately add or remove: grouping parentheses and trailing commas, the pieces of a
+/// pun (`x = x` <-> `= x`, `/x = x` <-> `/x`), telescope merges (`=> fn`, `. forall`, …), the alternative abstraction
+/// spelling (`comatch p => b end` = `fn p => b`), and the metadata sugar (`@[m] _` = `@(m)`). They are left out of the
+/// comparison; everything else (identifiers, constructor/destructor names, literals by value, all other keywords
+/// and operators) must appear in the same order.
+const INSIGNIFICANT: &[&str] = &["(", ")", "[", "]", ",", "=>", ".", "=", "fn", "comatch", "end", "forall", "pi", "sigma", "exists"];
+
+#[derive(Clone, Debug)]
+struct Sig {
+    norm: Norm,
+    /// index into the full token list (code + comments)
+    position: usize,
+    anchoring: bool,
+    /// inside a metadata annotation (its own identifier namespace: keywords are plain names there)
+    in_meta: bool,
+}
+
+/// The significant code tokens of a text, puns collapsed (adjacent equal identifiers count once).
+fn significant(tokens: &[scan::Token], src: &str) -> Vec<Sig> {
+    let code: Vec<(usize, &scan::Token)> = tokens.iter().enumerate().filter(|(_, t)| t.is_code()).collect();
+    let text = |k: usize| code[k].1.text(src);
+    let mut out: Vec<Sig> = Vec::new();
+    let mut meta_depth: Option<usize> = None;
+    let mut meta_square = false;
+    for k in 0..code.len() {
+        let (position, t) = code[k];
+        let s = t.text(src);
+        // metadata brackets: contents are never anchors; `@[m] _` drops its hole payload
+        let mut in_meta = meta_depth.is_some();
+        if let Some(d) = meta_depth {
+            match s {
+                | "(" | "[" => meta_depth = Some(d + 1),
+                | ")" | "]" => {
+                    meta_depth = if d <= 1 { None } else { Some(d - 1) };
+                }
+                | _ => {}
+            }
+        } else if s == "@" && k + 1 < code.len() && matches!(text(k + 1), "(" | "[") {
+            meta_depth = Some(0);
+            meta_square = text(k + 1) == "[";
+            in_meta = true;
+        }
+        // (possibly parenthesised: `@[m] (_)`)
+        let prev_non_paren = (0..k).rev().map(|j| text(j)).find(|x| *x != "(");
+        if s == "_" && prev_non_paren == Some("]") && meta_depth.is_none() && meta_square {
+            // the hole payload of `@[m] _`
+            meta_square = false;
+            continue;
+        }
+        if INSIGNIFICANT.contains(&s) {
+            continue;
+        }
+        let is_ident = matches!(t.kind, scan::Kind::Lower | scan::Kind::Upper);
+        let norm = normalize(t, src);
+        // pun: an identifier equal to the previous significant token, with only `=` / parentheses between them
+        if is_ident {
+            if let Some(prev) = out.last() {
+                // exactly `=` then optional opening parentheses between the two occurrences: `x = x`, `x = (x as T)`
+                let between: Vec<&str> = (0..k).filter(|j| code[*j].0 > prev.position).map(|j| text(j)).collect();
+                // a normalisation applied alike to input and output, so it must not depend on tokens the formatter
+                // adds or removes: parentheses and commas may sit on either side of the `=`
+                let is_pun = between.iter().filter(|b| **b == "=").count() == 1 && between.iter().all(|b| matches!(*b, "=" | "(" | ")" | ","));
+                if prev.norm == norm && is_pun {
+                    // the surviving occurrence is the binder / payload: it anchors
+                    // the surviving occurrence is the binder / payload (the later one): it is the anchor
+                    let last = out.last_mut().unwrap();
+                    last.anchoring = !in_meta && t.kind != scan::Kind::Dtor;
+                    last.position = position;
+                    continue;
+                }
+            }
+        }
+        let after_slash = k >= 1 && text(k - 1) == "/";
+        let label = k + 1 < code.len() && matches!(text(k + 1), "=" | "::");
+        let arm_name = k >= 1 && text(k - 1) == "|" && k + 1 < code.len() && text(k + 1) == ":";
+        let projected_field = after_slash && k >= 2 && !matches!(text(k - 2), "(" | ";" | ",");
+        let anchoring = mutate::is_atom(t) && !in_meta && !label && !arm_name && !projected_field && t.kind != scan::Kind::Dtor;
+        out.push(Sig { norm, position, anchoring, in_meta });
+    }
+    out
+}
 
 /// Compare input and output of the formatter. Err = (signature, description).
 pub fn compare(input: &str, output: &str) -> Result<(), (String, String)> {
@@ -102,173 +181,48 @@ pub fn compare(input: &str, output: &str) -> Result<(), (String, String)> {
             format!("{} comments in, {} out; first difference at comment #{}: {:?} vs {:?}", ci.len(), co.len(), at, ci.get(at), co.get(at)),
         ));
     }
-    // (2) code tokens: two-pointer alignment
-    let code_i: Vec<&scan::Token> = ti.iter().filter(|t| t.is_code()).collect();
-    let code_o: Vec<&scan::Token> = to.iter().filter(|t| t.is_code()).collect();
-    let ni: Vec<Norm> = code_i.iter().map(|t| normalize(t, input)).collect();
-    let no: Vec<Norm> = code_o.iter().map(|t| normalize(t, output)).collect();
-    // matched[i] = Some(j): input code token i corresponds to output code token j
-    let mut matched: Vec<Option<usize>> = vec![None; ni.len()];
-    let (mut i, mut j) = (0usize, 0usize);
-    while j < no.len() {
-        // canonical spellings: `comatch p => b end` = `fn p => b`; `@[meta] _` = `@(meta)`
-        let same = i < ni.len()
-            && (ni[i] == no[j]
-                || matches!((code_i[i].text(input), code_o[j].text(output)), ("comatch", "fn") | ("[", "(") | ("]", ")")));
-        if same {
-            matched[i] = Some(j);
-            i += 1;
-            j += 1;
-            continue;
-        }
-        let o_text = code_o[j].text(output);
-        // pun expansion (the formatter spells a pun out when a comment sits inside it):
-        //   `= x` -> `x = x` : an identifier appears before `=`
-        let o_ident = matches!(code_o[j].kind, scan::Kind::Lower | scan::Kind::Upper);
-        if o_ident && j + 2 < no.len() && code_o[j + 1].text(output) == "=" && no[j + 2] == no[j] && i < ni.len() && code_i[i].text(input) == "=" {
-            j += 1;
-            continue;
-        }
-        //   `/x` -> `/x = x` : `= x` appears after the field
-        if o_text == "=" && j >= 1 && j + 1 < no.len() && no[j + 1] == no[j - 1] && !(i < ni.len() && code_i[i].text(input) == "=") {
-            j += 2;
-            continue;
-        }
-        // an added parenthesis where the input continues with a non-parenthesis token (`+C _ =>` -> `+C(_) =>`)
-        if ADDABLE.contains(&o_text) && i < ni.len() && !ADDABLE.contains(&code_i[i].text(input)) {
-            j += 1;
-            continue;
-        }
-        if i < ni.len() {
-            let i_text = code_i[i].text(input);
-            if REMOVABLE.contains(&i_text) {
-                i += 1;
-                continue;
-            }
-            // `@[meta] _` -> `@(meta)`: the hole payload goes
-            if i_text == "_" && i >= 1 && code_i[i - 1].text(input) == "]" {
-                i += 1;
-                continue;
-            }
-            // pun collapse: `x = x` -> `= x`  (the first identifier goes)
-            let is_ident = matches!(code_i[i].kind, scan::Kind::Lower | scan::Kind::Upper);
-            if is_ident && i + 2 < ni.len() && code_i[i + 1].text(input) == "=" && ni[i + 2] == ni[i] {
-                i += 1;
-                continue;
-            }
-            // `/x = x` -> `/x` (the trailing identifier goes; `=` is removable)
-            if is_ident && i >= 2 && code_i[i - 1].text(input) == "=" && ni[i - 2] == ni[i] {
-                i += 1;
-                continue;
-            }
-        }
-        if ADDABLE.contains(&o_text) {
-            j += 1;
-            continue;
-        }
-
-        let context = |toks: &Vec<&scan::Token>, src: &str, k: usize| -> String {
-            toks[k.saturating_sub(4)..(k + 4).min(toks.len())].iter().map(|t| t.text(src)).collect::<Vec<_>>().join(" ")
-        };
+    // (2) significant code tokens, in order
+    let si = significant(&ti, input);
+    let so = significant(&to, output);
+    let ni: Vec<&Norm> = si.iter().map(|s| &s.norm).collect();
+    let no: Vec<&Norm> = so.iter().map(|s| &s.norm).collect();
+    if ni != no {
+        let at = ni.iter().zip(no.iter()).position(|(a, b)| a != b).unwrap_or(ni.len().min(no.len()));
+        let ctx = |v: &Vec<&Norm>| v[at.saturating_sub(4)..(at + 4).min(v.len())].iter().map(|n| format!("{:?}", n)).collect::<Vec<_>>().join(" ");
         return Err((
             "code-token-lost-or-changed".to_string(),
-            format!(
-                "output token #{} {:?} has no counterpart: input near [{}], output near [{}]",
-                j,
-                o_text,
-                if i < ni.len() { context(&code_i, input, i) } else { "<end of input>".into() },
-                context(&code_o, output, j)
-            ),
+            format!("{} significant tokens in, {} out; first difference at #{}: input [{}] output [{}]", ni.len(), no.len(), at, ctx(&ni), ctx(&no)),
         ));
     }
-    // remaining input tokens must all be removable
-    while i < ni.len() {
-        let i_text = code_i[i].text(input);
-        let is_ident = matches!(code_i[i].kind, scan::Kind::Lower | scan::Kind::Upper);
-        let pun_tail = is_ident && i >= 2 && code_i[i - 1].text(input) == "=" && ni[i - 2] == ni[i];
-        let meta_hole = i_text == "_" && i >= 1 && code_i[i - 1].text(input) == "]";
-        if !REMOVABLE.contains(&i_text) && !pun_tail && !meta_hole {
-            return Err(("code-token-lost-or-changed".to_string(), format!("input token #{} {:?} does not appear in the output", i, i_text)));
-        }
-        i += 1;
-    }
-    // (3) side preservation on anchoring atoms: atoms that begin or are an entity of the syntax tree. Names that are
-    // only part of an entity (metadata contents, projected field names, destructor names, field labels) are not
-    // anchors: the formatter attaches a comment to the next *entity*.
-    let anchoring: Vec<bool> = {
-        let mut v = vec![false; code_i.len()];
-        let mut meta_depth: Option<usize> = None; // bracket depth inside a metadata annotation
-        let mut k = 0;
-        while k < code_i.len() {
-            let text = code_i[k].text(input);
-            if let Some(d) = meta_depth {
-                match text {
-                    | "(" | "[" => meta_depth = Some(d + 1),
-                    | ")" | "]" => meta_depth = if d <= 1 { None } else { Some(d - 1) },
-                    | _ => {}
-                }
-            } else if text == "@" {
-                if k + 1 < code_i.len() && matches!(code_i[k + 1].text(input), "(" | "[") {
-                    meta_depth = Some(0);
-                }
-            } else if mutate::is_atom(code_i[k]) {
-                let after_slash = k >= 1 && code_i[k - 1].text(input) == "/";
-                let label = k + 1 < code_i.len() && matches!(code_i[k + 1].text(input), "=" | "::");
-                // the constructor / destructor name of a data / codata arm (`| +C : T`, `| .d : T`) is part of the arm, not
-                // an entity: comments use entity anchors (docs/proposals/formatting.md), so one written between `|` and
-                // the name attaches to the arm's first entity
-                let arm_name = k >= 1 && code_i[k - 1].text(input) == "|" && k + 1 < code_i.len() && code_i[k + 1].text(input) == ":";
-                v[k] = !after_slash && !label && !arm_name && code_i[k].kind != scan::Kind::Dtor;
-            }
-            k += 1;
-        }
-        v
+    // (3) side preservation. The significant token sequences are equal, so a comment's place is the index of the
+    // next significant token. The formatter attaches a comment to the next *entity*: it may float forward over names
+    // that are only part of an entity (an arm's constructor, a projected field, metadata contents) and over
+    // punctuation, but never backward, and never across a separator that starts or ends a construct.
+    // (closing keywords and punctuation such as `in`, `that`, `;`, `|`, `)` are crossed by design: the comment
+    // becomes the leading comment of the next entity; that entity's own first keyword, or a literal, is not)
+    const SEPARATORS: &[&str] = &["let", "def", "do", "param", "match", "begin", "data", "codata", "ret"];
+    let next_index = |tokens: &[scan::Token], sig: &[Sig]| -> Vec<usize> {
+        tokens.iter().enumerate().filter(|(_, t)| t.is_comment()).map(|(position, _)| sig.iter().filter(|s| s.position < position).count()).collect()
     };
-    // position of each token in the full (code + comment) streams
-    let mut code_index_i = 0usize;
-    let mut prev_atom_out: Option<usize> = None; // output code index of the last matched atom before the current comment
-    let mut comment_no = 0usize;
-    // output: for each comment, the output code index of the token following it
-    let mut out_comment_next: Vec<usize> = Vec::new();
-    {
-        let mut k = 0usize;
-        for t in &to {
-            if t.is_comment() {
-                out_comment_next.push(k);
-            } else {
-                k += 1;
-            }
+    let (xi, xo) = (next_index(&ti, &si), next_index(&to, &so));
+    for (k, (a, b)) in xi.iter().zip(xo.iter()).enumerate() {
+        let comment = ti.iter().filter(|t| t.is_comment()).nth(k).map(|t| t.text(input).to_string()).unwrap_or_default();
+        let tok = |n: usize| si.get(n).map(|s| ti[s.position].text(input).to_string()).unwrap_or_else(|| "<end>".into());
+        if b < a {
+            return Err((
+                "comment-moved-backward".to_string(),
+                format!("comment #{} {:?} preceded {:?} (token #{}) in the input but precedes {:?} (token #{}) in the output", k, comment, tok(*a), a, tok(*b), b),
+            ));
         }
-    }
-    for t in &ti {
-        if t.is_comment() {
-            // next matched atom after this comment in the input
-            let next_atom_out = (code_index_i..ni.len()).find_map(|k| if anchoring[k] { matched[k] } else { None });
-            let pos = out_comment_next[comment_no]; // comment sits before output code token `pos`
-            if let Some(p) = prev_atom_out {
-                if pos <= p {
-                    return Err((
-                        "comment-moved-across-atom".to_string(),
-                        format!("comment #{} {:?} moved before the atom {:?} it followed", comment_no, t.text(input), code_o[p].text(output)),
-                    ));
-                }
-            }
-            if let Some(n) = next_atom_out {
-                if pos > n {
-                    return Err((
-                        "comment-moved-across-atom".to_string(),
-                        format!("comment #{} {:?} moved after the atom {:?} it preceded", comment_no, t.text(input), code_o[n].text(output)),
-                    ));
-                }
-            }
-            comment_no += 1;
-        } else {
-            if anchoring[code_index_i] {
-                if let Some(m) = matched[code_index_i] {
-                    prev_atom_out = Some(m);
-                }
-            }
-            code_index_i += 1;
+        let is_separator = |n: usize| -> bool {
+            let t = &ti[si[n].position];
+            (!si[n].in_meta && SEPARATORS.contains(&t.text(input))) || (si[n].anchoring && matches!(t.kind, scan::Kind::Int | scan::Kind::Float | scan::Kind::Str | scan::Kind::Char))
+        };
+        if let Some(crossed) = (*a..*b).find(|n| is_separator(*n)) {
+            return Err((
+                "comment-moved-across-separator".to_string(),
+                format!("comment #{} {:?} floated from before {:?} (token #{}) to before {:?} (token #{}), across the separator {:?}", k, comment, tok(*a), a, tok(*b), b, tok(crossed)),
+            ));
         }
     }
     Ok(())
